@@ -256,6 +256,44 @@ def wfU2BRow (r : Row) : Bool := r.1.length == 2 && decide (0x80 ≤ r.2) && dec
 
 def wfU2B (rows : List Row) : Bool := rows.all wfU2BRow
 
+/-! ### initBig5 = initB2U; initU2B — a state machine over the two package-level maps
+
+Each loader has its OWN "already loaded" guard on its OWN map, so loading is resumable: an initialisation that fails
+on the second table leaves the first one loaded, and a later initialisation loads only what is missing.
+`fs` is the file system as `os.Open` + `io.ReadAll` see it (`none`: an error is returned).  The flag in the result
+is `err != nil`.  (A panic inside the row loop leaves the rows inserted so far in the Go map; the model does not
+keep them — no generated history parses a panicking file twice.) -/
+
+structure Loader where
+  b2u : GoMap
+  u2b : GoMap
+
+abbrev FS := String → Option Bytes
+
+def b2uMapFrom (m : GoMap) (rows : List Row) : GoMap := rows.foldl (fun m r => m.insert r.1 (encodeUcs2 r.2)) m
+def u2bMapFrom (m : GoMap) (rows : List Row) : GoMap := rows.foldl (fun m r => m.insert (encodeUcs2 r.2) r.1) m
+
+def initB2U (fs : FS) (path : String) (st : Loader) : M (Loader × Bool) :=
+  if st.b2u.size > 0 then .ok (st, false)            -- already loaded
+  else match fs path with
+    | none => .ok (st, true)
+    | some content => do
+      let rows ← parseTable content
+      pure ({ st with b2u := b2uMapFrom st.b2u rows }, false)
+
+def initU2B (fs : FS) (path : String) (st : Loader) : M (Loader × Bool) :=
+  if st.u2b.size > 0 then .ok (st, false)
+  else match fs path with
+    | none => .ok (st, true)
+    | some content => do
+      let rows ← parseTable content
+      pure ({ st with u2b := u2bMapFrom st.u2b rows }, false)
+
+/-- `types.initBig5` with `BIG5_TO_UTF8 = pb`, `UTF8_TO_BIG5 = pu`. -/
+def initBig5 (fs : FS) (pb pu : String) (st : Loader) : M (Loader × Bool) := do
+  let (st1, e1) ← initB2U fs pb st
+  if e1 then pure (st1, true) else initU2B fs pu st1
+
 /-! ### types.config(): which ini key feeds which table path
 
 `config()` is a sequence of `X = setTConfig("KEY", DEFAULT)`; the list of these reads is regenerated from the
